@@ -207,9 +207,17 @@ func Run(c *evid.Ctx) {
 	reps := vals.Scalars(0)
 	// depth 1: every container of width <= 2 over the level-1 scalar alphabet (every element-type mix)
 	w1 := 2
-	var d1 []*vals.Spec
-	containers(small, w1, func(s *vals.Spec) { d1 = append(d1, s) })
-	parallel(d1, run)
+	var sampleD1, sampleD2 *vals.Spec
+	nD1 := 0
+	parallelGen(func(emit func(*vals.Spec)) {
+		containers(small, w1, func(s *vals.Spec) {
+			nD1++
+			if nD1 == 5000 {
+				sampleD1 = s
+			}
+			emit(s)
+		})
+	}, run)
 	for _, s := range full { // singleton containers over the full alphabet (long payloads inside containers)
 		run(vals.List(s))
 		run(vals.Map([]string{"k"}, s))
@@ -219,9 +227,16 @@ func Run(c *evid.Ctx) {
 	var inner []*vals.Spec
 	inner = append(inner, reps...)
 	containers(reps, 2, func(s *vals.Spec) { inner = append(inner, s) })
-	var d2 []*vals.Spec
-	containers(inner, 2, func(s *vals.Spec) { d2 = append(d2, s) })
-	parallel(d2, run)
+	nD2 := 0
+	parallelGen(func(emit func(*vals.Spec)) {
+		containers(inner, 2, func(s *vals.Spec) {
+			nD2++
+			if nD2 == 5000 {
+				sampleD2 = s
+			}
+			emit(s)
+		})
+	}, run)
 	depthDone := 2
 	if c.Thorough() {
 		// depth 3 over a reduced inner set: width <= 2 of (representatives + depth-2 singletons)
@@ -230,13 +245,11 @@ func Run(c *evid.Ctx) {
 		containers(reps[:6], 1, func(s *vals.Spec) { in3 = append(in3, s) })
 		var mid []*vals.Spec
 		containers(in3, 2, func(s *vals.Spec) { mid = append(mid, s) })
-		var d3 []*vals.Spec
-		containers(append(append([]*vals.Spec{}, reps[:4]...), mid...), 2, func(s *vals.Spec) { d3 = append(d3, s) })
-		parallel(d3, run)
+		parallelGen(func(emit func(*vals.Spec)) {
+			containers(append(append([]*vals.Spec{}, reps[:4]...), mid...), 2, emit)
+		}, run)
 		// width 3 at depth 1
-		var w3 []*vals.Spec
-		containers(reps, 3, func(s *vals.Spec) { w3 = append(w3, s) })
-		parallel(w3, run)
+		parallelGen(func(emit func(*vals.Spec)) { containers(reps, 3, emit) }, run)
 		depthDone = 3
 	}
 	sh := shapes(c.Thorough())
@@ -245,10 +258,33 @@ func Run(c *evid.Ctx) {
 	c.Count("distinct_nontrivial", nontriv)
 	c.Cov["depth_completed"] = depthDone
 	c.Cov["rule"] = "one evaluation = one value term built through golib's constructors, encoded with WriteValue and compared byte for byte with refenc, decoded with ReadValue and compared structurally (own comparator, order of entries, floats by bits), Available()==0, re-encoded; terms are enumerated without repetition; non-trivial = any value other than null"
-	c.Sample(d1[len(d1)/2].String())
-	c.Sample(d2[len(d2)/3].String())
+	if sampleD1 != nil {
+		c.Sample(sampleD1.String())
+	}
+	if sampleD2 != nil {
+		c.Sample(sampleD2.String())
+	}
 	c.Sample(sh[4].String())
 	c.Assume("scalar payloads come from boundary alphabets; containers are all terms up to the stated depth and width over those alphabets plus shape cases (sizes around table growth and the decimal count classes, colliding keys, nesting depth 64)")
+}
+
+// parallelGen streams the specs a generator emits to 16 workers (nothing is materialised: the
+// thorough tier's term sets do not fit in memory).
+func parallelGen(gen func(emit func(*vals.Spec)), f func(*vals.Spec)) {
+	var wg sync.WaitGroup
+	ch := make(chan *vals.Spec, 1024)
+	for i := 0; i < 16; i++ {
+		wg.Add(1)
+		go func() {
+			defer wg.Done()
+			for s := range ch {
+				f(s)
+			}
+		}()
+	}
+	gen(func(s *vals.Spec) { ch <- s })
+	close(ch)
+	wg.Wait()
 }
 
 func parallel(specs []*vals.Spec, f func(*vals.Spec)) {
